@@ -93,6 +93,8 @@ PROPS = {
             "JSON at serde_json::Value level (text layer trusted); numbers are u64 below 2^62; other numbers are outside the modelled domain",
             "find_deno_types (regex) enters the model as a table computed by the real function; the theorems hold for every such function",
             "part (b) of C13 (manifest shortcut equals parsing) is not covered by this check",
+            "real from_value(model_enc(mi)) = mi is obtained from model_enc(mi) = real to_value(mi) as unordered values (compared on every case) and the real round trip with permuted object keys (checked directly on every case)",
+            "the range attached to an upgraded types specifier is the one module_graph_1_to_2 computes (comment start + 2 + regex byte offsets -1/+1, unbounded arithmetic in the model); the property text does not constrain it. Observed on the real code: it differs from what the current analyser computes for the same source when the pragma is quote-less (14..24 instead of 15..23 for `// @deno-types=./a.d.ts`) or contains / is preceded by non-ASCII text (byte instead of character offsets), and `character` = usize::MAX in a manifest makes module_graph_1_to_2 overflow (panic with overflow checks)",
         ],
         "partial": ["part (b) of C13 (graph built from embedded module info equals graph built by parsing) is not modelled yet; only the codec and the moduleGraph1 upgrade are proved and tied to the code"],
     },
